@@ -99,8 +99,10 @@ def fork_call(fn, payload, timeout=600):
 
 
 class Server:
-    def __init__(self, import_order=None, cache_dir=None, variant=None):
+    def __init__(self, import_order=None, cache_dir=None, variant=None, peer_cache_dirs=()):
         self.variant = variant or {}
+        self.peer_cache_dirs = list(peer_cache_dirs or ())
+        self.h9_mismatches = []
         order = import_order or SUBPACKAGES
         self.import_order = list(order)
         for name in order:
@@ -166,6 +168,19 @@ class Server:
         g["key"] = key
         g["by"] = self.variant.get("name", "?")
         g["req"] = req
+        # H9: the same call evaluated alone by another process class (e.g. -OO)
+        for pd in self.peer_cache_dirs:
+            try:
+                with open(os.path.join(pd, key[:2], key)) as f:
+                    other = json.load(f)
+            except (OSError, ValueError):
+                continue
+            self.stats["peer_compared"] = self.stats.get("peer_compared", 0) + 1
+            if other.get("outcome") != g.get("outcome") and not (
+                    _resource(other.get("outcome")) or _resource(g.get("outcome"))):
+                self.h9_mismatches.append({"req": req, "here": g["outcome"],
+                                           "there": other["outcome"],
+                                           "there_by": other.get("by")})
         if use_cache:
             self.mem[key] = g
             if self.cache_dir:
@@ -381,6 +396,11 @@ class Server:
                                  "detail": {"got_digest": od, "golden_digest": gold["od"],
                                             "got": _short(oc), "golden": _short(gout)}})
         return viol, cnt
+
+
+def _resource(outcome):
+    return bool(outcome) and (outcome[0] == "budget" or
+                              (outcome[0] == "raised" and outcome[1] in RESOURCE_EXC))
 
 
 def _short(c, n=400):
